@@ -17,7 +17,9 @@ KEYS = ['a', 'b', 'ab', {'b': '61'}, 1, {'f': '1.0'}, {'f': '2.5'}, 0, {'f': '-0
 SMALL_VALUES = [0, 1, -7, {'f': '1.5'}, {'f': '-0.0'}, {'f': 'inf'}, 'v', 'text\r\nline', {'b': '0001ff'}, None, True,
                 {'t': [1, None, 'x']}, {'l': [1, 2, 3]}, {'d': [['k', 1]]}, {'i': str(2 ** 70)}, '',
                 {'sub': ['str', 'red']}, {'sub': ['bytes', {'b': '00ff'}]}, {'sub': ['int', 7]}, {'sub': ['float', {'f': '1.5'}]}]
-TAGS = [None, None, 't1', 't2', {'b': '7431'}, 3, 0, '']
+TAGS = [None, None, 't1', 't2', {'b': '7431'}, 3, 0, '',
+        # tags that are prefixes of one another, with the separators people use for hierarchies: different tags all the same
+        't1:a', 't1:a:b', 't1/a', 't1.a', 't1%', 't1_']
 TTLS = [None, None, None, 0, -1, 1e-9, 1, 5, 60, 1e12, -1e12]
 
 
@@ -112,11 +114,17 @@ def gen_prog(rng, n_ops, profile, mfs):
         elif r < 0.73:
             op = {'op': 'clear'}
         elif r < 0.76:
-            op = {'op': 'evict', 'tag': rng.choice(('t1', 't2', 'nope', 0, '', 3, {'b': '7431'}))}
+            op = {'op': 'evict', 'tag': rng.choice(('t1', 't1', 't2', 'nope', 0, '', 3, {'b': '7431'}, 't1:a', 't1%'))}
+            if rng.random() < 0.3:
+                op['retry'] = True
         elif r < 0.80:
             op = {'op': 'expire'}
+            if rng.random() < 0.3:
+                op['retry'] = True      # how a call is spelled (retry flag given or not) changes nothing for a single client
         elif r < 0.82:
             op = {'op': 'cull'}
+            if rng.random() < 0.4:
+                op['retry'] = True
         elif r < 0.85:
             op = {'op': 'len'}
         elif r < 0.88:
